@@ -38,10 +38,12 @@ Record rstate := mkR {
   rents : list entry;   (* live entries, with the activation each one waits for *)
   rrun : bool;          (* started and not stopped *)
   rout : Z;             (* job invocations that have not returned *)
-  rctx : list bool      (* contexts returned by Stop: complete? *)
+  rctx : list bool;     (* contexts returned by Stop: complete? *)
+  rgone : list Z;       (* ids whose Remove call has returned to its caller *)
+  rhalt : bool          (* a Stop call has returned and no Start has been processed since *)
 }.
 
-Definition rinit : rstate := mkR [] false 0 [].
+Definition rinit : rstate := mkR [] false 0 [] [] false.
 
 (* the entry's activation has been reached by a clock reading [w] *)
 Definition due_at (w : Z) (e : entry) : bool :=
@@ -67,23 +69,29 @@ Definition restart (t : Z) (e : entry) : entry :=
 Definition rstep (R : rstate) (o : obs) : rstate :=
   let '(ev, out, jobs) := o in
   match ev with
-  | Start t => mkR (map (restart t) (rents R)) true (rout R) (rctx R)
+  | Start t => mkR (map (restart t) (rents R)) true (rout R) (rctx R) (rgone R) false
   | Wake w => mkR (if rrun R then map (fire w) (rents R) else rents R) (rrun R)
-                  (rout R + Z.of_nat (length jobs)) (rctx R)
+                  (rout R + Z.of_nat (length jobs)) (rctx R) (rgone R) (rhalt R)
   | Added t sc =>
       match out with
       | OAdded id _ => mkR (rents R ++ [mkE id sc (next sc t) None]) (rrun R) (rout R) (rctx R)
+                           (rgone R) (rhalt R)
       | _ => R
       end
   | ScheduleIdle sc =>
       match out with
       | OId id => mkR (rents R ++ [mkE id sc None None]) (rrun R) (rout R) (rctx R)
+                      (rgone R) (rhalt R)
       | _ => R
       end
-  | Removed _ id | RemoveIdle id => mkR (remove_entry id (rents R)) (rrun R) (rout R) (rctx R)
-  | Stop | StopIdle => mkR (rents R) false (rout R) (rctx R ++ [rout R =? 0])
+  | Removed _ id | RemoveIdle id =>
+      mkR (remove_entry id (rents R)) (rrun R) (rout R) (rctx R) (rgone R) (rhalt R)
+  | Stop | StopIdle => mkR (rents R) false (rout R) (rctx R ++ [rout R =? 0]) (rgone R) (rhalt R)
   | JobRet => let o' := rout R - 1 in
               mkR (rents R) (rrun R) o' (if o' =? 0 then map (fun _ => true) (rctx R) else rctx R)
+                  (rgone R) (rhalt R)
+  | RemoveRet id => mkR (rents R) (rrun R) (rout R) (rctx R) (id :: rgone R) (rhalt R)
+  | StopRet => mkR (rents R) (rrun R) (rout R) (rctx R) (rgone R) true
   | Snapshot | EntriesIdle | StartNoop | CtxPoll | Tick _ => R
   end.
 
@@ -96,14 +104,20 @@ Definition spec_obs (R : rstate) (o : obs) : Prop :=
       Permutation (map fst jobs) (map eid (due R w)) /\
       (* never early: the job begins at or after the activation it is started for *)
       (forall i c, In (i, c) jobs ->
-         exists e a, In e (rents R) /\ eid e = i /\ enxt e = Some a /\ a <= c)
+         exists e a, In e (rents R) /\ eid e = i /\ enxt e = Some a /\ a <= c) /\
+      (* after Remove(id) has returned, entry id is not started; after Stop has returned
+         nothing is started (until a later Start) *)
+      (forall i c, In (i, c) jobs -> ~ In i (rgone R)) /\
+      (rhalt R = true -> jobs = [])
   | Tick c =>
       jobs = [] /\
       (* every activation instant the clock has reached got its start *)
       (rrun R = true -> forall e a, In e (rents R) -> enxt e = Some a -> c < a)
   | Snapshot | EntriesIdle =>
       jobs = [] /\
-      exists l, out = OSnap l /\ Permutation l (snapshot_of (rents R))
+      (exists l, out = OSnap l /\ Permutation l (snapshot_of (rents R))) /\
+      (* an entry whose Remove has returned is not reported *)
+      (forall l i n p, out = OSnap l -> In (i, n, p) l -> ~ In i (rgone R))
   | Stop | StopIdle =>
       jobs = [] /\ out = OCtx (rout R =? 0)
   | CtxPoll =>
@@ -112,7 +126,7 @@ Definition spec_obs (R : rstate) (o : obs) : Prop :=
       jobs = [] /\ exists id nx, out = OAdded id nx /\ ~ In id (map eid (rents R))
   | ScheduleIdle _ =>
       jobs = [] /\ exists id, out = OId id /\ ~ In id (map eid (rents R))
-  | Start _ | Removed _ _ | RemoveIdle _ | StartNoop | JobRet => jobs = []
+  | Start _ | Removed _ _ | RemoveIdle _ | StartNoop | JobRet | RemoveRet _ | StopRet => jobs = []
   end.
 
 Fixpoint spec_from (R : rstate) (tr : list obs) : Prop :=
@@ -170,14 +184,20 @@ Definition oracle_obs (R : rstate) (o : obs) : bool :=
       permb Z.eqb (map fst jobs) (map eid (due R w)) &&
       forallb (fun j => existsb (fun e => (eid e =? fst j) &&
                                           match enxt e with Some a => a <=? snd j | None => false end)
-                                (rents R)) jobs
+                                (rents R)) jobs &&
+      forallb (fun j => negb (existsb (Z.eqb (fst j)) (rgone R))) jobs &&
+      (negb (rhalt R) || nil_b jobs)
   | Tick c =>
       nil_b jobs &&
       (negb (rrun R) ||
        forallb (fun e => match enxt e with Some a => c <? a | None => true end) (rents R))
   | Snapshot | EntriesIdle =>
       nil_b jobs &&
-      match out with OSnap l => permb trip_eqb l (snapshot_of (rents R)) | _ => false end
+      match out with
+      | OSnap l => permb trip_eqb l (snapshot_of (rents R)) &&
+                   forallb (fun x => negb (existsb (Z.eqb (fst (fst x))) (rgone R))) l
+      | _ => false
+      end
   | Stop | StopIdle =>
       nil_b jobs && match out with OCtx d => Bool.eqb d (rout R =? 0) | _ => false end
   | CtxPoll =>
@@ -186,7 +206,7 @@ Definition oracle_obs (R : rstate) (o : obs) : bool :=
       nil_b jobs && match out with OAdded id _ => fresh_b id R | _ => false end
   | ScheduleIdle _ =>
       nil_b jobs && match out with OId id => fresh_b id R | _ => false end
-  | Start _ | Removed _ _ | RemoveIdle _ | StartNoop | JobRet => nil_b jobs
+  | Start _ | Removed _ _ | RemoveIdle _ | StartNoop | JobRet | RemoveRet _ | StopRet => nil_b jobs
   end.
 
 Fixpoint oracle_from (R : rstate) (tr : list obs) : bool :=
@@ -221,6 +241,8 @@ Arguments rents {sched}.
 Arguments rrun {sched}.
 Arguments rout {sched}.
 Arguments rctx {sched}.
+Arguments rgone {sched}.
+Arguments rhalt {sched}.
 Arguments rinit {sched}.
 Arguments due_at {sched}.
 Arguments due {sched}.
